@@ -40,7 +40,7 @@ impl Codec for Dna {
     /// In other words, multiply the ASCII value by 3 and shift right.
     fn unsafe_from_ascii(b: u8) -> Self {
         // TODO: benchmark against b * 3
-        Dna::unsafe_from_bits(((b << 1) + b) >> 3)
+        Dna::unsafe_from_bits((((b << 1) + b) >> 3) & 0b11)
     }
 
     fn try_from_ascii(c: u8) -> Option<Self> {
